@@ -594,7 +594,7 @@ class kMinPathError(pathmodel.AbstractPathModelDAG):
 
     def _remove_empty_paths(self, solution):
         """
-        Removes empty paths from the solution. Empty paths are those with 0 or 1 nodes.
+        Removes empty paths from the solution. Empty paths are those with 0 or 1 nodes (0 nodes for node-weighted input, where a single node is a path).
 
         Parameters
         ----------
@@ -615,7 +615,8 @@ class kMinPathError(pathmodel.AbstractPathModelDAG):
         non_empty_slacks = []
         non_empty_scaled_slacks = []
         for path, weight, slack, scaled_slack in zip(solution["paths"], solution["weights"], solution["slacks"], solution.get("scaled_slacks", solution["slacks"])):
-            if len(path) > 1:
+            # a node-weighted path may consist of a single node (a node that is both a source and a sink)
+            if len(path) > (0 if self.flow_attr_origin == "node" else 1):
                 non_empty_paths.append(path)
                 non_empty_weights.append(weight)
                 non_empty_slacks.append(slack)
